@@ -138,6 +138,47 @@ func enumMC3(r *ev.Run, dims [][3]int) {
 	}
 }
 
+// largeLattice covers the size thresholds of the block-splitting code in the
+// filter variants (a worker re-splits a queued block only on lattices with
+// more than 64*4096 cells), which the per-cube finite-quotient argument does
+// not reach.
+func largeLattice(r *ev.Run) {
+	sph := &model3d.Sphere{Center: model3d.XYZ(0.1, 0.2, -0.1), Radius: 1}
+	two := model3d.JoinedSolid{&model3d.Sphere{Radius: 0.5}, &model3d.Sphere{Center: model3d.XYZ(2.2, 0.3, 0.4), Radius: 0.4}}
+	for i, c := range []struct {
+		s     model3d.Solid
+		delta float64
+		probe []model3d.Coord3D
+	}{{sph, 0.03, []model3d.Coord3D{sph.Center, model3d.XYZ(0.9, 0.2, -0.1), model3d.XYZ(1.5, 0, 0)}},
+		{two, 0.035, []model3d.Coord3D{{}, model3d.XYZ(2.2, 0.3, 0.4), model3d.XYZ(1.2, 0, 0)}}} {
+		for _, algo := range []string{"MarchingCubesFilterTrue", "MarchingCubesSearchFilter1"} {
+			r.Eval(1)
+			cs := mcCase{Kind: "large", Algo: algo, N: []int{i}}
+			var m *model3d.Mesh
+			if p := ev.Try(func() { m = runMC3(algo, c.s, c.delta) }); p != "" {
+				r.Violation("mc3/"+algo+"/panic", "panic: "+p, cs)
+				continue
+			}
+			tris := lat.Tris(m)
+			rep := topo.Analyze3(tris)
+			r.NontrivialAdd(1)
+			if !rep.Manifold() {
+				r.Violation("mc3/"+algo+"/nonmanifold", "large lattice: "+rep.String(), cs)
+				continue
+			}
+			for _, p := range c.probe {
+				want := 0.0
+				if c.s.Contains(p) {
+					want = 1
+				}
+				if w := topo.Winding3(tris, p.Array()); math.Abs(w-want) > 1e-6 {
+					r.Violation("mc3/"+algo+"/winding", fmt.Sprintf("large lattice: winding %g at %v want %g", w, p, want), cs)
+				}
+			}
+		}
+	}
+}
+
 // ---------- 2D ----------
 
 var placements2 = []struct {
@@ -650,6 +691,7 @@ func main() {
 		dr = [][3]int{{2, 2, 2}, {3, 2, 2}}
 	}
 	r.Isolate("mc3", func() { enumMC3(r, d3) })
+	r.Isolate("large-lattice", func() { largeLattice(r) })
 	r.Isolate("ms2", func() { enumMS2(r, d2) })
 	r.Isolate("bitmap", func() { enumBitmap(r, db) })
 	r.Isolate("generators", func() { enumGenerators(r) })
